@@ -51,8 +51,8 @@ DerivedOf(n) ==
         Mk(K, v, base) == LET ix == Ordered(K) IN
                           [j \in 1..Len(ix) |->
                              Variant(full[ix[j]], v,
-                                     IF j = 1 THEN (ix[1] # 1 \/ base) ELSE (ix[j] # ix[j - 1] + 1 \/ base))]
-    IN {Mk(K, v, base) : K \in keeps, v \in {1, 2, 3}, base \in BOOLEAN}
+                                     IF j = 1 THEN (ix[1] # 1 \/ base # 0) ELSE (ix[j] # ix[j - 1] + 1 \/ base = 1))]
+    IN {Mk(K, v, base) : K \in keeps, v \in {1, 2, 3}, base \in {0, 1, 2}}
 Derived == UNION {DerivedOf(n) : n \in NS}
 
 Paths == P1 \cup (IF NObj <= 2 THEN P2 ELSE S2) \cup S3 \cup Derived
